@@ -607,6 +607,9 @@ func dumpNode(v reflect.Value, sb *strings.Builder) {
 		for i := 0; i < t.NumField(); i++ {
 			f := v.Field(i)
 			ft := t.Field(i)
+			if f.Kind() == reflect.Struct && ft.Type.PkgPath() == "sync" {
+				continue // a lock is not part of the tree
+			}
 			if ft.Name == "SourceCode" {
 				fmt.Fprintf(sb, " @%d:%d", f.FieldByName("LineNum").Int(), f.FieldByName("Column").Int())
 				continue
